@@ -240,7 +240,7 @@ def renorm_protocol(ctx, bt, n, corr="report:renorm[C17]", fixed=None):
     cases, lines = [], []
     todo = [None] * n if fixed is None else list(fixed)
     for item in todo:
-        spec = gen_program(ctx.rng, winddown=False) if item is None else {k: v for k, v in item.items() if k != "renorm_v"}
+        spec = gen_program(ctx.rng, winddown=False) if item is None else {k: v for k, v in item.items() if not k.startswith("renorm_")}
         ctx.evaluations += 1
         if item is None and ctx.rng.random() < 0.5:
             # a book held at one notional throughout: par-based weights whose absolute values sum to 1, constant schedule
@@ -269,12 +269,52 @@ def renorm_protocol(ctx, bt, n, corr="report:renorm[C17]", fixed=None):
         if ctx.rng.random() < 0.1:
             vs.append(0.0)
         if item is not None:
-            vs = [item["renorm_v"]]
+            vs = [item["renorm_v"]] if "renorm_v" in item else []
+        # ---- the normalising value as a Series on the backtest's dates
+        series = []
+        tol = float(bt.core.TOL)
+        engine_bases = [float("nan")] + [(notl[t - 1] if abs(notl[t - 1]) >= tol else notl[t]) for t in range(1, T)]
+        if item is None:
+            series.append(("engine-bases", engine_bases))
+            rnd = [float(ctx.rng.choice([1000.0, 2000.0, 12345.678, 0.0, float("nan")])) if ctx.rng.random() < 0.3 else 1000.0 for _ in range(T)]
+            series.append(("random", rnd))
+        elif "renorm_series" in item:
+            series.append((item.get("renorm_series_kind", "replayed"), [float("nan") if x is None else x for x in item["renorm_series"]]))
+        for kind, ser in series:
+            try:
+                res = bt.backtest.RenormalizedFixedIncomeResult(pd.Series(ser, index=b.dates), b)
+                real = [float(x) for x in np.asarray(res.prices[b.name].reindex(b.dates).values, dtype=float)]
+                ctx.count("renorm:series:via-constructor")
+            except Exception as e:  # noqa
+                ctx.count("renorm:series:constructor-raised:" + type(e).__name__)
+                try:
+                    real = [float(x) for x in np.asarray(bt.backtest.RenormalizedFixedIncomeResult._price(None, s, pd.Series(ser, index=b.dates)).values, dtype=float)]
+                except Exception as e2:  # noqa
+                    ctx.count("renorm:series:_price-raised:" + type(e2).__name__)
+                    continue
+            rd = dict(spec, renorm_series=[None if x != x else x for x in ser], renorm_series_kind=kind)
+            par = float(bt.core.PAR)
+            ctx.count("renorm:series:" + kind)
+            if kind == "engine-bases" and len(real) == T and all(x == x for x in index):
+                # renormalising by the very bases the engine measured each date's return on gives back the strategy's own index
+                # (rows whose base is exactly 0 show NaN - 0/0 - and are skipped by the running total, like the engine's `ret = 0`)
+                judged = 0
+                for t in range(T):
+                    if real[t] != real[t] or abs(real[t]) == float("inf"):
+                        continue
+                    judged += 1
+                    if not abs(real[t] - index[t]) <= 1e-9 * max(1.0, abs(index[t])):
+                        ctx.violation("C17/renorm-by-engine-bases-vs-index", "date#%d: renormalised by the bases the index was measured on gives %r, the strategy's index is %r"
+                                      % (t, real[t], index[t]), rd)
+                        break
+                ctx.count("renorm:series:rows-judged-against-index", judged)
+            cases.append((rd, real))
+            lines.append("report renorms %s %s %s %s" % (E.tF(par), E.tL(ser, lambda x: "N" if x != x else E.tF(x)), E.tL(values, E.tF), E.tL(flows, E.tF)))
         for v in vs:
             via = "constructor"
             try:
                 res = bt.backtest.RenormalizedFixedIncomeResult(v, b)
-                real = [float(x) for x in np.asarray(res.prices[b.name].values, dtype=float)]
+                real = [float(x) for x in np.asarray(res.prices[b.name].reindex(b.dates).values, dtype=float)]
             except Exception as e:  # noqa  (ffn's statistics can refuse a degenerate series; the price rule itself is then called directly)
                 ctx.count("renorm:constructor-raised:" + type(e).__name__)
                 via = "_price"
@@ -336,7 +376,7 @@ def renorm_protocol(ctx, bt, n, corr="report:renorm[C17]", fixed=None):
                     continue
                 if not abs(r - mm) <= 1e-9 * max(1.0, abs(r), abs(mm)):
                     ok = False
-                    ctx.disagreement(corr, "row %d: real %r, model %r (v = %r)" % (i, r, mm, rd["renorm_v"]), rd)
+                    ctx.disagreement(corr, "row %d: real %r, model %r (v = %r)" % (i, r, mm, rd.get("renorm_v", rd.get("renorm_series_kind"))), rd)
                     break
         else:
             ctx.disagreement(corr, "real series has %d rows, model %d" % (len(real), len(model)), rd)
@@ -385,7 +425,7 @@ def search(ctx, bt):
 
 def replay(bt, data, ctx):
     case = data["case"]
-    if "renorm_v" in case:
+    if "renorm_v" in case or "renorm_series" in case:
         return renorm_protocol(ctx, bt, 0, fixed=[case])
     if case.get("mode") == "program":
         return run_program(ctx, bt, case)
